@@ -591,6 +591,15 @@ func pure(e ast.Expr) bool {
 	return false
 }
 
+// sortableMapKey: the key type has a canonical order, or is an interface type
+// (then it is decided at run time from the dynamic types of the keys).
+func sortableMapKey(t types.Type) bool {
+	if _, isIface := t.Underlying().(*types.Interface); isIface {
+		return true
+	}
+	return sortableKey(t)
+}
+
 func sortableKey(t types.Type) bool {
 	switch u := t.Underlying().(type) {
 	case *types.Basic:
@@ -652,7 +661,7 @@ func (c *fileCtx) rangeStmt(n *ast.RangeStmt, isLabeled bool) {
 		if !*flagMaps {
 			return
 		}
-		if !sortableKey(u.Key()) {
+		if !sortableMapKey(u.Key()) {
 			sum.UncontrolledMap = append(sum.UncontrolledMap, where+" (key type "+u.Key().String()+" has no canonical order)")
 			return
 		}
@@ -761,7 +770,7 @@ func (c *fileCtx) call(n *ast.CallExpr) {
 	if id, ok := n.Fun.(*ast.Ident); ok && id.Name == "delete" && len(n.Args) == 2 && *flagMaps {
 		if _, isB := c.info.Uses[id].(*types.Builtin); isB {
 			if tv, ok := c.info.Types[n.Args[0]]; ok && tv.Type != nil {
-				if mt, isMap := tv.Type.Underlying().(*types.Map); isMap && sortableKey(mt.Key()) {
+				if mt, isMap := tv.Type.Underlying().(*types.Map); isMap && sortableMapKey(mt.Key()) {
 					// tell the map-range seam (a key deleted and created again during an
 					// iteration may be skipped by Go)
 					c.edits = append(c.edits, edit{c.off(n.Pos()), c.off(n.Lparen) + 1, "__simrt.MapDelete("})
